@@ -146,7 +146,7 @@ def named_bucket(spec: G.ModelSpec, f, d: str, exc) -> str | None:
     return None
 
 
-def sig(spec: G.ModelSpec, exprs, exc, d: str | None = None) -> str:
+def sig(spec: G.ModelSpec, exprs, exc, d: str | None = None, use_named: bool = True) -> str:
     """Root-cause signature: the field (category + essential tags) that differs and the kind of
     difference (leaf types), or the exception type and the categories involved."""
     parts = []
@@ -154,7 +154,7 @@ def sig(spec: G.ModelSpec, exprs, exc, d: str | None = None) -> str:
         p = d.split(":", 1)[0].strip().lstrip(".")
         fname = p.split(".")[0].split("[")[0]
         f = next((x for x in spec.fields if x.name == fname), None)
-        named = named_bucket(spec, f, d, exc)
+        named = named_bucket(spec, f, d, exc) if use_named else None
         if named:
             return named
         if f is not None:
@@ -175,7 +175,7 @@ def sig(spec: G.ModelSpec, exprs, exc, d: str | None = None) -> str:
             kind = f"{left}->{right}"
         parts.append(kind)
     if exc is not None:
-        named = named_bucket(spec, None, "", exc)
+        named = named_bucket(spec, None, "", exc) if use_named else None
         if named:
             return named
         parts.append(type(exc).__name__)
